@@ -48,7 +48,8 @@ TABULAR = ["q_learning", "sarsa", "double_q_learning", "monte_carlo", "dynaq"]
 MULTITASK = ["smt", "active_mt", "uts"]
 # configuration variants of a routine (same entry point): MR.Q learning from step 0 (sampling while no admissible
 # sub-trajectory start exists yet) and the active scheduler with undiscounted UCB and constant rewards (exact ties)
-VARIANTS = {"mrq@ls0": "mrq", "active_mt@ties": "active_mt"}
+# MR.Q with a buffer that wraps around during the run; A2C with a budget that is no multiple of one rollout
+VARIANTS = {"mrq@ls0": "mrq", "active_mt@ties": "active_mt", "mrq@full": "mrq", "a2c@partial": "a2c"}
 POLLUTABLE = {"ddpg", "td3", "td3_lap", "sac", "td7", "mrq", "pets"}  # continuous Box actions: an alt-bounds run exists
 ROUTINES = OFF_POLICY + EPISODIC + VECTOR + TABULAR + ["cmaes"] + MULTITASK + list(VARIANTS)
 
@@ -60,10 +61,10 @@ FAMILIES = {
     "ddpg-td3": ["ddpg", "td3", "td3_lap"],
     "sac": ["sac"],
     "td7": ["td7"],
-    "mrq": ["mrq", "mrq@ls0"],
+    "mrq": ["mrq", "mrq@ls0", "mrq@full"],
     "pets": ["pets"],
     "policy-gradient": ["reinforce", "ac"],
-    "a2c-ppo": ["a2c", "ppo"],
+    "a2c-ppo": ["a2c", "ppo", "a2c@partial"],
     "tabular": TABULAR,
     "cmaes": ["cmaes"],
     "multi-task": MULTITASK + ["active_mt@ties"],
@@ -359,7 +360,7 @@ def run_off_policy(name, sid, seed, net_seed, alt_bounds=False):
     cfg = dict(env=env, seed=seed, net_seed=net_seed, total_timesteps=T, learning_starts=2, batch_size=2, delay=2,
                buffer_size=6, extra={"logger": lg}, width=3)
     if name == "mrq":
-        cfg.update(learning_starts=0 if variant == "mrq@ls0" else 4, buffer_size=12)
+        cfg.update(learning_starts=0 if variant == "mrq@ls0" else 4, buffer_size=7 if variant == "mrq@full" else 12)
     if name == "pets":
         cfg.update(learning_starts=3)
     if name == "dqn":
@@ -417,6 +418,7 @@ def run_vector(name, sid, seed, net_seed):
     from rl_blox.blox.function_approximator.mlp import MLP
     from rl_blox.blox.function_approximator.policy_head import SoftmaxPolicy
 
+    variant, name = name, VARIANTS.get(name, name)
     n = 16
     scripts = [_periodic(sid, n), _periodic(sid + 1, n)]
     mode = gym.vector.AutoresetMode.SAME_STEP if name == "ppo" else gym.vector.AutoresetMode.NEXT_STEP
@@ -437,7 +439,7 @@ def run_vector(name, sid, seed, net_seed):
         wenvs = gym.wrappers.vector.RecordEpisodeStatistics(envs)
         comps = dict(policy=actor, policy_optimizer=oa, value_function=critic, value_function_optimizer=oc)
         before = {k: part(v)[0] for k, v in comps.items()}
-        res, err = _guard(lambda: train_a2c(wenvs, actor, oa, critic, oc, seed=seed, total_timesteps=18, gamma=0.9, gae_lambda=0.8,
+        res, err = _guard(lambda: train_a2c(wenvs, actor, oa, critic, oc, seed=seed, total_timesteps=20 if variant == "a2c@partial" else 18, gamma=0.9, gae_lambda=0.8,
                                             steps_per_update=3, log_frequency=None, logger=lg, progress_bar=False))
     if res is not None:
         comps["returned"] = res
@@ -570,7 +572,7 @@ def run_digest(name, sid, seed, net_seed, alt_bounds=False):
         return run_off_policy(name, sid, seed, net_seed, alt_bounds)
     if name in EPISODIC:
         return run_episodic(name, sid, seed, net_seed)
-    if name in VECTOR:
+    if VARIANTS.get(name, name) in VECTOR:
         return run_vector(name, sid, seed, net_seed)
     if name in TABULAR:
         return run_tabular(name, sid, seed, net_seed)
@@ -613,7 +615,8 @@ def perturbed(glob=0, shift=0.0, vclock=False):
     from rl_blox.blox import replay_buffer as _rb
 
     real_np = _rb.np
-    fill = 1000.0 + (glob % 997) + 0.25
+    # large for odd perturbation values, small for even ones (a result that clamps the garbage away on one side still differs)
+    fill = 1000.0 + (glob % 997) + 0.25 if glob % 2 else 2.0**-6 * (1 + glob % 13)
 
     class _Np:
         def __getattr__(self, name):
